@@ -103,6 +103,33 @@ func solveReports(reps []*FuncReport, dir string, timeout time.Duration, par int
 		}
 	}
 	wg.Wait()
+	// second pass: anything not discharged is retried almost alone with three times the timeout, so that a loaded machine
+	// cannot turn a provable obligation into an alarm
+	sem2 := make(chan struct{}, 2)
+	for _, rep := range reps {
+		if rep.Err != nil || rep.VC == nil {
+			continue
+		}
+		rep := rep
+		for i, o := range rep.VC.obls {
+			if o.Expect == "sat" || rep.Results[i].Status == "unsat" || rep.Results[i].Status == "sat" || rep.Results[i].File == "" {
+				continue
+			}
+			wg.Add(1)
+			go func(i int) {
+				defer wg.Done()
+				sem2 <- struct{}{}
+				defer func() { <-sem2 }()
+				r := race(rep.Results[i].File, 3*timeout, "")
+				r.Bytes = rep.Results[i].Bytes
+				if r.Status == "unsat" || r.Status == "sat" {
+					r.Solver += " (retry)"
+					rep.Results[i] = r
+				}
+			}(i)
+		}
+	}
+	wg.Wait()
 }
 
 func solveAll(rep *FuncReport, dir string, timeout time.Duration, par int) {
